@@ -106,21 +106,34 @@ static std::string sshist(const std::vector<std::string>& ops) {
         else if (c == 'M') { secret_string& r = *x; *x = std::move(r); }                // self move-assignment keeps the object
         else throw std::logic_error("sshist op");
         long heap_dirty = hw::end().dirty;
-        // stored representation
-        std::string st = " | ct=" + hx(x->verif_ct()) + ",nonce=" + hx(x->verif_nonce().data(), 12) + ",tag=" + hx(x->verif_tag().data(), 32);
-        // reveal (normal callback), with the interposer looking for the plaintext in released blocks
+        // reveal (normal callback), with the interposer looking for the plaintext in released blocks. It comes BEFORE the stored representation is read
+        // through the inspection hooks, so that the object is revealed in exactly the state the operation left it in
         hw::clear_needles(); hw::add_needle(cur.data(), cur.size(), 2);
         std::string rv, revealed;                     // the revealed copy belongs to the caller: it outlives the watch region
         hw::begin(1);
         try { revealed = x->reveal_copy(); rv = "ok"; } catch (const std::runtime_error&) { rv = "throw:runtime_error"; } catch (...) { rv = "throw:other"; }
         long wipe_dirty = hw::end().dirty;
         if (rv == "ok") rv = "ok " + hxs(revealed);
+        // stored representation
+        std::string st = " | ct=" + hx(x->verif_ct()) + ",nonce=" + hx(x->verif_nonce().data(), 12) + ",tag=" + hx(x->verif_tag().data(), 32);
         // throwing callbacks: std exception and a non-std type
         for (int kind = 0; kind < 2; ++kind) {
+            const uint8_t* seen = 0; size_t seen_n = 0; long stack_residue = 0;
+            // the callback captures ONE reference, so std::function keeps it in its small buffer: no heap block is released (and scanned by the
+            // interposer, whose frames would overwrite the dead stack region) between the throw and the look at that region below
+            struct Cap { const uint8_t** seen; size_t* n; int kind; } cap = { &seen, &seen_n, kind };
             hw::begin(1);
-            try { x->with_plaintext([&](const uint8_t*, size_t) { if (kind == 0) throw std::runtime_error("cb"); else throw ThrowInt(); }); }
-            catch (...) {}
-            wipe_dirty += hw::end().dirty;
+            try { x->with_plaintext([&cap](const uint8_t* p_, size_t n_) { *cap.seen = p_; *cap.n = n_; if (cap.kind == 0) throw std::runtime_error("cb"); else throw ThrowInt(); }); }
+            catch (...) {
+                // if the temporary plaintext lived in AUTOMATIC storage of a frame that is gone now (below this one), look at it before anything is
+                // called from here: a run of 8 plaintext bytes still in place means it was not wiped on the exception path (heap temporaries are
+                // seen by the allocator interposer instead; released heap memory is never read here)
+                volatile char marker = 0; uintptr_t here = (uintptr_t)&marker, there = (uintptr_t)seen;
+                if (seen && there < here && here - there < ((uintptr_t)1 << 20) && seen_n == cur.size()) {
+                    size_t run = 0; for (size_t i = 0; i < seen_n; ++i) { if (((volatile const uint8_t*)seen)[i] == cur[i] && cur[i] != 0) { if (++run >= 8) { stack_residue = 1; break; } } else run = 0; }
+                }
+            }
+            wipe_dirty += hw::end().dirty + stack_residue;
         }
         // at rest: the stored bytes do not contain the plaintext (8-byte windows)
         bool opaque = true;
@@ -306,6 +319,14 @@ static std::string oom_call(const std::vector<std::string>& a) {
     if (f == "b32enc") SWEEP((base32_encode(A2)))
     if (f == "b36enc") SWEEP((base36_encode(A2)))
     if (f == "tohex") SWEEP((to_hex(s2, false)))
+    // ---- a COPY of a hash / HMAC context in mid-stream is continued and finished while its allocations fail: bad_alloc, never terminate
+    if (f == "hashctx_fork") {
+        TypeHash ty = th(a[2]);
+        if (ty == TypeHash::SHA1) SWEEP(([&]() { hmac_hash::SHA1 c; c.init(); c.update(A2.data(), A2.size()); hmac_hash::SHA1 d(c); d.update(A3.data(), A3.size()); uint8_t o[20]; d.finish(o); return hx(o, 20); }()))
+        if (ty == TypeHash::SHA256) SWEEP(([&]() { hmac_hash::SHA256 c; c.init(); c.update(A2.data(), A2.size()); hmac_hash::SHA256 d(c); d.update(A3.data(), A3.size()); uint8_t o[32]; d.finish(o); return hx(o, 32); }()))
+        SWEEP(([&]() { hmac_hash::SHA512 c; c.init(); c.update(A2.data(), A2.size()); hmac_hash::SHA512 d(c); d.update(A3.data(), A3.size()); uint8_t o[64]; d.finish(o); return hx(o, 64); }()))
+    }
+    if (f == "hmacctx_fork") SWEEP(([&]() { HmacContext c(th(a[2])); c.init(A2.data(), A2.size()); c.update(A3.data(), A3.size() / 2); HmacContext d(c); d.update(A3.data(), A3.size()); uint8_t o[64]; d.final(o, 64); return hx(o, 20); }()))
     // ---- ONE HmacContext object: a complete cycle under another key, then init(key) hits an allocation failure, then a complete cycle under a
     //      SHORTER key: that MAC must be HMAC(shorter key, msg) - nothing of the failed init may stay in the object
     if (f == "hmacctx_reuse") {
@@ -362,8 +383,12 @@ static std::string oom_call(const std::vector<std::string>& a) {
         auto at_rest_plain = [&](const Bytes& pl) { const std::vector<uint8_t>& ct = x->verif_ct();
             for (size_t j = 0; j + 8 <= pl.size(); ++j) if (hw::window_interesting(pl.data() + j, 8) && ct.size() >= 8 && memmem(ct.data(), ct.size(), pl.data() + j, 8)) return true;
             return false; };
-        auto st = [&]() { if (at_rest_plain(A2) || at_rest_plain(A3)) return std::string("PLAINTEXT-AT-REST");
-                          try { return "reveals:" + hxs(x->reveal_copy()); } catch (const std::runtime_error&) { return std::string("integrity-error"); } catch (const std::bad_alloc&) { return std::string("bad_alloc-on-reveal"); } };
+        // (the reveal comes first: the inspection hooks count as a modification of the stored representation)
+        auto st = [&]() { std::string rv_;
+                          try { rv_ = "reveals:" + hxs(x->reveal_copy()); } catch (const std::runtime_error&) { rv_ = "integrity-error"; } catch (const std::bad_alloc&) { rv_ = "bad_alloc-on-reveal"; }
+                          if (at_rest_plain(A2) || at_rest_plain(A3)) return std::string("PLAINTEXT-AT-REST");
+                          return rv_; };
+        auto st_unused = [&]() { try { return "reveals:" + hxs(x->reveal_copy()); } catch (const std::runtime_error&) { return std::string("integrity-error"); } catch (const std::bad_alloc&) { return std::string("bad_alloc-on-reveal"); } };
         auto ok_state = [&](const std::string& s) { return s == "reveals:" + prev || s == "reveals:" + next || s == "integrity-error"; };
         if (f == "ss_set") res = oom_sweep(reset, [&]() { OomResult r = guard_call([&]() { x->set(A3.data(), A3.size()); return std::string(); }); hw::g_watch = false; hw::g_fail_at = -1; r.state = st(); return r; }, ok_state, false);
         else if (f == "ss_set_revealed") res = oom_sweep(reset, [&]() { OomResult r = guard_call([&]() { x->set(A3.data(), A3.size()); return std::string(); }); hw::g_watch = false; hw::g_fail_at = -1; r.state = st(); return r; }, ok_state, false);
@@ -372,6 +397,10 @@ static std::string oom_call(const std::vector<std::string>& a) {
                                                                       if (r.outcome != "ok") { try { x->rotate_nonce(); } catch (...) {} } hw::g_fail_at = -1; r.state = st(); return r; }, ok_state, false);
         else if (f == "ss_rotate_move_rotate") res = oom_sweep(reset, [&]() { OomResult r = guard_call([&]() { x->rotate_nonce(); return std::string(); }); hw::g_watch = false;
                                                                       if (r.outcome != "ok") { secret_string y(std::move(*x)); *x = std::move(y); try { x->rotate_nonce(); } catch (...) {} } hw::g_fail_at = -1; r.state = st(); return r; }, ok_state, false);
+        else if (f == "ss_rotate_moveassign_read") res = oom_sweep(reset, [&]() { OomResult r = guard_call([&]() { x->rotate_nonce(); return std::string(); }); hw::g_watch = false; hw::g_fail_at = -1;
+                                                                      if (r.outcome != "ok") { secret_string* tgt = new secret_string(A2.data(), A2.size() / 2 + 1); (void)tgt->reveal_copy();   // a target that has been read
+                                                                                               *tgt = std::move(*x); delete x; x = tgt; }
+                                                                      r.state = st(); return r; }, ok_state, false);
         else if (f == "ss_reveal") res = oom_sweep(reset, [&]() { OomResult r = guard_call([&]() { return x->reveal_copy(); }); hw::g_watch = false; hw::g_fail_at = -1; r.state = st(); return r; }, ok_state, false);
         else if (f == "ss_movein") res = oom_sweep(reset, [&]() { OomResult r = guard_call([&]() { *x = secret_string(A3.data(), A3.size()); return std::string(); }); hw::g_watch = false; hw::g_fail_at = -1; r.state = st(); return r; }, ok_state, false);
         else res = "HARNESS-unknown-ss-op";
@@ -387,6 +416,15 @@ static std::string run1(const std::vector<std::string>& a) {
     const std::string& op = a[0];
     if (op == "oom") return oom_call(a);
     if (op == "heap") return heap_call(a);
+    if (op == "ssbig") {      // ssbig <nbytes>: a secret of several MiB (block counters beyond 65535): what is revealed after set / rotate / move / rotate
+        size_t n = (size_t)strtoull(a[1].c_str(), 0, 10); Bytes p(n); for (size_t i = 0; i < n; ++i) p[i] = (uint8_t)((i * 131 + (i >> 8) * 7 + (i >> 16)) | 1);
+        std::string want = str_of(p); const char* step = "set";
+        auto bad = [&](const std::string& got) { size_t i = 0; while (i < got.size() && i < want.size() && got[i] == want[i]) ++i; return std::string("RECALL-MISMATCH after ") + step + " first-wrong-offset=" + std::to_string(i) + " length=" + std::to_string(got.size()); };
+        secret_string x(p.data(), p.size()); std::string r = x.reveal_copy(); if (r != want) return bad(r);
+        step = "rotate"; x.rotate_nonce(); r = x.reveal_copy(); if (r != want) return bad(r);
+        step = "move+rotate"; secret_string y(std::move(x)); y.rotate_nonce(); r = y.reveal_copy(); if (r != want) return bad(r);
+        return "recall-ok";
+    }
     if (op == "sshist") return sshist(std::vector<std::string>(a.begin() + 1, a.end()));
     if (op == "sbhist") {   // sbhist <variant> ops...: variant 0/1 = uint8_t buffers (page locking off/on), w0/w1 = uint32_t, x0/x1 = uint64_t
         std::vector<std::string> ops(a.begin() + 2, a.end()); const std::string& v = a[1];
